@@ -115,8 +115,8 @@ func TestReplayC05(t *testing.T) {
 // ---- C07
 
 func recC07() *vkit.Recorder {
-	r := vkit.Rec("C07", "exploration", "single-cycle scenarios biased to shard lists mixing idle-expired, idle-fresh, loaded, unready and out-of-sync shards in all positions; a directed family 'loaded shards whose settled targets fit nowhere, expired idle shards at the tail', and 2-3 cycle histories; every ChangeScale argument of the execution is judged; non-trivial = >=1 idle-expired in-sync shard or a request different from the current count; distinct = scenario digest")
-	r.Assume(cycAssume, "min <= max (statement); idle-since is either 1000h in the past (expired) or in the future (certainly not expired), never near the boundary")
+	r := vkit.Rec("C07", "exploration", "single-cycle scenarios biased to shard lists mixing idle-expired, idle-fresh, loaded, unready and out-of-sync shards in all positions; a directed family 'loaded shards whose settled targets fit nowhere, expired idle shards at the tail', and 2-3 cycle histories; one scenario in six has a second replica in front of or behind the first whose shard listing or scaling may fail; every ChangeScale argument of the execution is judged; non-trivial = >=1 idle-expired in-sync shard or a request different from the current count; distinct = scenario digest")
+	r.Assume(cycAssume, "min <= max (statement); idle-since is 1000h in the past (expired), in the future (certainly not expired), or - with a max-idle-time that is not a whole number of seconds - 400 ms short of max-idle-time when the execution starts; such a shard is judged as not expired only if the cycle was over before it expired")
 	return r
 }
 
@@ -173,6 +173,34 @@ func TestC07(t *testing.T) {
 			sc = genTailScenario(t)
 		} else {
 			sc = Gen(t, b)
+		}
+		if sc.Opt.IdleOn && rapid.IntRange(0, 3).Draw(t, "fractionalIdle") == 0 {
+			// max-idle-time that is not a whole number of seconds, empty shards that have been idle for almost that long
+			sc.Opt.IdleMS = rapid.SampledFrom([]int{1900, 2500, 1500, 900}).Draw(t, "idleMs")
+			for ri := range sc.Replicas {
+				for si := range sc.Replicas[ri].Shards {
+					if sp := &sc.Replicas[ri].Shards[si]; len(sp.Held) == 0 && rapid.IntRange(0, 2).Draw(t, fmt.Sprintf("near-%d-%d", ri, si)) != 0 {
+						sp.Idle = "near"
+					}
+				}
+			}
+		}
+		if rapid.IntRange(0, 5).Draw(t, "secondReplica") == 0 {
+			// a second replica in front of or behind the first; its shard listing or its scaling may fail
+			bb := b
+			bb.MinShards, bb.MaxShards = 0, 4
+			other := GenReplica(t, bb, sc.Opt, sc.Targets, "R2-")
+			switch rapid.IntRange(0, 3).Draw(t, "r2Fault") {
+			case 0, 1:
+				other.ListFail = true
+			case 2:
+				other.ScaleFail = true
+			}
+			if rapid.Bool().Draw(t, "r2First") {
+				sc.Replicas = append([]ReplicaSpec{other}, sc.Replicas...)
+			} else {
+				sc.Replicas = append(sc.Replicas, other)
+			}
 		}
 		if msg := Check(rec, "TestC07", sc, JudgeC07, Execs()); msg != "" {
 			t.Fatalf("%s", msg)
